@@ -155,6 +155,9 @@ def work(item):
                     okd = False
                 continue
             oa, ob, oi = A.out('o'), B.out('o'), pi_[0].out('o')
+            if any(v is None for v in oa + ob + oi):
+                okd = False          # an unwritten component: already reported for the factory concerned
+                continue
             viol = []
             for k in range(n):
                 ea = conv.conv(oa[k]) if isinstance(oa[k], Term) else conv.rconst(oa[k])
